@@ -28,30 +28,45 @@ def parse : Ser → Bytes → PO Message
   | .compact, d => parseCompact d
   | .json, d => parseJSON d
 
-/-- every protected header the parser stores is the decoding of the raw text stored with it,
-    and carries the message's `b64` setting -/
+/-- every protected header the parser stores is the decoding of the raw text stored with it -/
 theorem parse_protDecoded (o : Oracle) (ser : Ser) (d : Bytes) (msg : Message)
     (h : (parse ser d).run o = .ok msg) :
-    ∀ s ∈ msg.signatures, ProtDecoded o s ∧ ∀ p, s.prot = some p → p.nb64 = msg.nb64 := by
+    ∀ s ∈ msg.signatures, ProtDecoded o s := by
   cases ser with
   | compact =>
     obtain ⟨hh, p, sg, hdr, sig, _, _, _, hHO, _, rfl⟩ := parseCompact_ok o d msg h
     intro s hs
     simp at hs
     subst hs
-    refine ⟨?_, ?_⟩
-    · intro p' hp'; simp at hp'; subst hp'; exact hHO
-    · intro p' hp'; simp at hp'; subst hp'; rfl
+    intro p' hp'; simp at hp'; subst hp'; exact hHO
   | json =>
-    obtain ⟨_, _, _, hd, hc, _⟩ := parseJSON_ok o d msg h
+    obtain ⟨_, _, _, hd, _, _⟩ := parseJSON_ok o d msg h
+    exact hd
+
+/-- **parse_b64_uniform.**  A parsed message has ONE b64 setting: every signature entry's own
+    setting — its protected header's `b64`, the default for an entry WITHOUT a protected header —
+    equals the message flag that decides whether the payload is decoded.  (jws.go `UnmarshalJSON`
+    after 47ca076: entries without a protected header take part in the consistency check.) -/
+theorem parse_b64_uniform (o : Oracle) (ser : Ser) (d : Bytes) (msg : Message)
+    (h : (parse ser d).run o = .ok msg) :
+    ∀ s ∈ msg.signatures, s.nb64 = msg.nb64 := by
+  cases ser with
+  | compact =>
+    obtain ⟨hh, p, sg, hdr, sig, _, _, _, _, _, rfl⟩ := parseCompact_ok o d msg h
     intro s hs
-    exact ⟨hd s hs, hc s hs⟩
+    simp at hs
+    subst hs
+    rfl
+  | json =>
+    obtain ⟨_, _, _, _, hc, _⟩ := parseJSON_ok o d msg h
+    exact hc
 
 /-- **jws_verify_sound.**  For every oracle (standard library + caller callbacks), every verifier
     configuration, every serialisation and every input `d`: if parsing `d` and verifying succeeds
     with `(prot, unprot, payload)`, then the parsed message has a signature entry `s` such that
     * `prot`/`unprot` are `s`'s headers, `prot` being the decoding of the RECEIVED text
-      `s.rawProtected` (`ProtDecoded`) and agreeing with the message on `b64`;
+      `s.rawProtected` (`ProtDecoded`); `s`'s own b64 setting (default when it has no protected
+      header) is the message's;
     * `s` was `Verified` against the received payload text `msg.payload`: algorithm named in
       `s`'s header and allowed, key = the finder's answer for `(s.prot, s.header)`, primitive
       accepted exactly `s.rawProtected ++ "." ++ msg.payload` with the full signature;
@@ -63,12 +78,29 @@ theorem jws_verify_sound (o : Oracle) (cfg : Cfg) (ser : Ser) (d : Bytes)
     (h : (parse ser d >>= verify cfg).run o = .ok (prot, unprot, payload)) :
     ∃ msg, (parse ser d).run o = .ok msg ∧ cfg.configured = true ∧
       ∃ s ∈ msg.signatures, prot = s.prot ∧ unprot = s.header ∧
-        ProtDecoded o s ∧ (∀ p, s.prot = some p → p.nb64 = msg.nb64) ∧
+        ProtDecoded o s ∧ s.nb64 = msg.nb64 ∧
         Verified o cfg s msg.payload ∧ Returned o msg payload := by
   obtain ⟨msg, hmsg, hv⟩ := PO.run_bind_eq_ok o _ _ _ h
   obtain ⟨hc, s, hs, h1, h2, hver, hret⟩ := verify_ok o cfg msg _ hv
-  obtain ⟨hd, hn⟩ := parse_protDecoded o ser d msg hmsg s hs
-  exact ⟨msg, hmsg, hc, s, hs, h1, h2, hd, hn, hver, hret⟩
+  exact ⟨msg, hmsg, hc, s, hs, h1, h2, parse_protDecoded o ser d msg hmsg s hs,
+    parse_b64_uniform o ser d msg hmsg s hs, hver, hret⟩
+
+/-- **verify_payload_matches_entry_header.**  The payload a successful verification hands back is
+    decoded according to the VERIFIED entry's OWN header: the received payload text itself when that
+    entry's protected header says `b64=false`, its base64url decoding otherwise — in particular
+    when the verified entry has no protected header at all (default `b64`).  No other entry (a junk
+    signature anyone can add) can change how the payload of the verified entry is read. -/
+theorem verify_payload_matches_entry_header (o : Oracle) (cfg : Cfg) (ser : Ser) (d : Bytes)
+    (prot unprot : Option Header) (payload : Bytes)
+    (h : (parse ser d >>= verify cfg).run o = .ok (prot, unprot, payload)) :
+    ∃ msg, (parse ser d).run o = .ok msg ∧
+      ∃ s ∈ msg.signatures, prot = s.prot ∧ unprot = s.header ∧ Verified o cfg s msg.payload ∧
+        (if s.nb64 then payload = msg.payload
+         else o ⟨"b64url.dec", [.bytes msg.payload]⟩ = .bytes payload) := by
+  obtain ⟨msg, hmsg, _, s, hs, h1, h2, _, hn, hver, hret⟩ := jws_verify_sound o cfg ser d prot unprot payload h
+  refine ⟨msg, hmsg, s, hs, h1, h2, hver, ?_⟩
+  rw [hn]
+  exact hret
 
 /-- **compact, in terms of the input bytes.**  `d = h.p.sg` (no '.' in `h`, `p`); the returned
     protected header is the decoding of `h`, the primitive accepted exactly `h ++ "." ++ p` — a
@@ -127,11 +159,11 @@ theorem jws_verifyContent_sound (o : Oracle) (cfg : Cfg) (ser : Ser) (d content 
     ∃ msg, (parse ser d).run o = .ok msg ∧ payload = content ∧
       ∃ sc, (if msg.nb64 then sc = content else o ⟨"b64url.enc", [.bytes content]⟩ = .bytes sc) ∧
       ∃ s ∈ msg.signatures, prot = s.prot ∧ unprot = s.header ∧ ProtDecoded o s ∧
-        (∀ p, s.prot = some p → p.nb64 = msg.nb64) ∧ Verified o cfg s sc := by
+        s.nb64 = msg.nb64 ∧ Verified o cfg s sc := by
   obtain ⟨msg, hmsg, hv⟩ := PO.run_bind_eq_ok o _ _ _ h
   obtain ⟨_, hpl, sc, hsc, s, hs, h1, h2, hver⟩ := verifyContent_ok o cfg msg content _ hv
-  obtain ⟨hd, hn⟩ := parse_protDecoded o ser d msg hmsg s hs
-  exact ⟨msg, hmsg, hpl, sc, hsc, s, hs, h1, h2, hd, hn, hver⟩
+  exact ⟨msg, hmsg, hpl, sc, hsc, s, hs, h1, h2, parse_protDecoded o ser d msg hmsg s hs,
+    parse_b64_uniform o ser d msg hmsg s hs, hver⟩
 
 end Model.JWS
 
@@ -307,6 +339,28 @@ example : (match (parseJSON [3] >>= verify toyCfg).run toyO2 with
     (RFC 7515 §4.1.1): the unprotected algorithm is used; a protected `alg` always wins -/
 example : ({ prot := some { alg := "" }, header := some { alg := "HS256" } } : Signature).alg = "HS256" := by decide
 example : ({ prot := some { alg := "ES256" }, header := some { alg := "none" } } : Signature).alg = "ES256" := by decide
+
+/-- the shape of the defect fixed by 47ca076: entry 0 (junk, anyone can add it) has a protected header
+    with `b64:false`, entry 1 — the one that would verify — has only an unprotected header.  The
+    parser refuses the message (b64 mismatch); before the fix it was accepted and the base64url TEXT
+    of the payload was returned. -/
+def toyO3 : Oracle := fun q =>
+  if q.name == "json.decodeMap" then
+    (match q.args with
+     | [.bytes [4]] => .obj [("alg", .str "HS256"), ("b64", .bool false)]
+     | [.bytes [5]] => .obj [("payload", .str "p"),
+         ("signatures", .arr [.obj [("protected", .str "k"), ("signature", .str "s")],
+                              .obj [("header", .obj [("alg", .str "HS256")]), ("signature", .str "s")]])]
+     | _ => toyO2 q)
+  else if q.name == "b64url.dec" then
+    (match q.args with
+     | [.bytes [0x6b]] => .bytes [4]
+     | _ => toyO2 q)
+  else toyO2 q
+
+example : (match (parseJSON [5] >>= verify toyCfg).run toyO3 with
+    | .err c => c == "parse"
+    | _ => false) = true := by decide
 
 /-- a forged MAC is refused -/
 example : (match (parseCompact [0x68, 0x2e, 0x70, 0x2e, 0x78] >>= verify toyCfg).run toyO2 with
